@@ -73,9 +73,36 @@ def snapshot_check(walk, routes, fp=False, transparent=False):
     return run
 
 
+def routes_replay(v, path):
+    """replay of a two-routes file: route A (simulator prefix) as plain lines, route B (callback) as `# ` lines"""
+    from .common import run_blocks, VH
+    txt = open(path).read().splitlines()
+    ia, ib = txt.index("# route A (simulator prefix):"), txt.index("# route B (callback):")
+    A = [l for l in txt[ia + 1:ib] if l.strip() and not l.startswith("#")]
+    B = [l[2:] for l in txt[ib + 1:] if l.startswith("# ") and l[2:].strip()]
+    for L in (A, B):
+        if not any(l.startswith("draws") for l in L):
+            seed = next((int(l.split()[1]) for l in L if l.startswith("seed ")), 1)
+            L.insert(1, f"draws {sim_suite.draws_for(seed)}")
+    o, _, _ = run_blocks([VH, "sim"], [sim_suite.block("a", A), sim_suite.block("b", B)], 60)
+    def summ(out):
+        r = [l for l in out if l.startswith("run ")]
+        return (r[0].split()[2] if r else None, set(snap_suite.nproj(l) for l in out if l.startswith("E ")))
+    sa, sb = summ(o.get("a", [])), summ(o.get("b", []))
+    print(f"route A: {sa[0]} {len(sa[1])} states; route B: {sb[0]} {len(sb[1])} states; only in one: {len(sa[1] ^ sb[1])}")
+    if sa != sb:
+        print("the two routes differ (for the `routes` suite the check additionally classifies differences caused by findings D1/D15 with "
+              "the model's reference variants; this replay shows the raw difference)")
+        v.violation("replay.txt", open(path).read())
+
+
 def auto_replay(v, path):
     """replay file of either engine"""
+    if "# route B (callback):" in open(path).read():
+        return routes_replay(v, path)
     lines = [l.strip() for l in open(path) if l.strip() and not l.startswith("#")]
+    if lines and all(l.split()[0] in ("pm", "pt", "rm", "pop", "ct", "cp", "cfg", "mode", "avail") for l in lines[:3]):
+        return store_suite.replay(v, path)
     if any(l.startswith(("run ", "runfrom ", "cb ")) for l in lines) and not any(l.startswith(("seed", "draws", "mc run")) for l in lines):
         return mc_checks.replay(v, path)
     return sim_replay(v, path)
@@ -175,7 +202,7 @@ PROPS = {
                            extra=lambda rng, tier: [(f"lm{i}", sim_suite.gen_link_matrix(rng)) for i in range(300 if tier == "quick" else 6000)]),
                        mc("mc_links", dict(p_link=0.7, p_fault=0.2, nodes=(2, 3), procs=(2, 4), p_send=0.6, p_timer=0.1), refenum=True, n_quick=100, n_thorough=1500,
                           extra_gen=mc_checks.gen_mc_link_matrix, nontrivial=lambda st: st["multi_states"])]},
-    "C06": {"ready": True, "replay": sim_replay,
+    "C06": {"ready": True, "replay": auto_replay,
             "suites": [sim_suite.time_laws_probe, sim("sim_time", "C06", dict(p_random_delay=0.7, p_skew=0.6, p_clock=0.4, p_crash=0.1),
                            nontrivial=lambda st: st["received"] and st["timers_fired"],
                            extra=lambda rng, tier: [(f"sk{i}", sim_suite.gen_skew_recover(rng)) for i in range(150 if tier == "quick" else 3000)]),
@@ -184,7 +211,7 @@ PROPS = {
             "suites": [sim("sim_crash", "C08", dict(p_crash=0.9, nodes=(2, 3), procs=(2, 4), ops=(10, 24)),
                            nontrivial=lambda st: st["crash"] and st["received"],
                            extra=lambda rng, tier: [(f"cb{i}", sim_suite.gen_crash_burst(rng)) for i in range(150 if tier == "quick" else 3000)])]},
-    "C15": {"ready": True, "replay": sim_replay, "suites": [snapshot_check(walk=0, routes=True, fp=True)]},
+    "C15": {"ready": True, "replay": auto_replay, "suites": [snapshot_check(walk=0, routes=True, fp=True)]},
     "C17": {"ready": True, "replay": sim_replay,
             "partial": "whole-run invariants are proved for the per-process logs/counters (LogInv) and the global trace (TraceInv: ids, network counters, traffic, single fate exactly for duplication-free sends, at most 3 otherwise); the times recorded in the global trace and in the per-process event logs are theorems (trace_times_sorted, LogTimeInv, step_log_times); the per-copy fate under duplication is judged by the monitor and the bit-exact correspondence",
             "suites": [sim("sim_logs", "C17", dict(p_fault=0.5, p_crash=0.4, p_link=0.3, nodes=(2, 3), procs=(2, 4)),
@@ -196,9 +223,9 @@ PROPS = {
             "partial": "state_depth_current_run is proved only in its sound half (finding D11); time_limit (wall clock) is outside the model"},
     "C02": {"ready": True, "partial": PARTIAL_D1, "replay": mc_checks.replay,
             "suites": [mc("mc_paths", dict(collect_always=True, depth=(2, 4), caches=("full", "disabled"), staged=0.35, staged3=0.6), refenum=True)]},
-    "C03": {"ready": True, "partial": PARTIAL_D1, "replay": mc_checks.replay,
+    "C03": {"ready": True, "partial": PARTIAL_D1, "replay": auto_replay,
             "suites": [mc("mc_exhaustive", dict(depth=(2, 4), staged=0.25, p_link=0.3, p_fault=0.45, p_send=0.5), refenum=True, cross=mc_checks.COMBOS, n_quick=250, extra_gen=mc_checks.gen_staged_gate)]},
-    "C07": {"ready": True, "partial": PARTIAL_D1, "replay": mc_checks.replay,
+    "C07": {"ready": True, "partial": PARTIAL_D1, "replay": auto_replay,
             "suites": [mc("mc_timers", dict(p_timer=0.45, p_send=0.25, p_local=0.05, p_cancel=0.25, p_once=0.35, same_timer_name=0.35, record=0.8,
                                             depth=(3, 5), acts=(1, 4), rules=(2, 5), locals=(1, 3), p_fault=0.05, caches=("disabled", "full")),
                           refenum=True, n_quick=700,
@@ -207,20 +234,20 @@ PROPS = {
                                                      p_crash=0.05, p_link=0.05, ops=(8, 20)),
                            nontrivial=lambda st: st["timers_fired"]),
                        py_suite.sim_twin]},
-    "C09": {"ready": True, "replay": mc_checks.replay,
+    "C09": {"ready": True, "replay": auto_replay,
             "suites": [mc("mc_rerun", dict(two_runs=1.0, staged=0.3, p_link=0.4, p_fault=0.3, p_crash=0.2, nodes=(2, 3), p_send=0.5)), snapshot_check(walk=0, routes=False, transparent=True),
                        lambda v, tier, seed: py_suite.run(v, tier, seed, n_quick=60, n_thorough=800), py_suite.restore_probe]},
     "C10": {"ready": True, "replay": mc_checks.replay, "partial": PARTIAL_D1,
             "suites": [mc("mc_bfs_dfs", dict(depth=(2, 4)), cross=[("dfs", "full"), ("bfs", "full"), ("dfs", "partial"), ("bfs", "partial"), ("dfs", "disabled"), ("bfs", "disabled")],
                           n_quick=200, extra_gen=mc_checks.gen_payload_twins)]},
-    "C11": {"ready": True, "replay": mc_checks.replay, "partial": PARTIAL_D1,
+    "C11": {"ready": True, "replay": auto_replay, "partial": PARTIAL_D1,
             "suites": [mc("mc_cache_modes", dict(record=0.2, identical_msgs=0.5, depth=(2, 4)),
                           cross=[("dfs", "full"), ("dfs", "partial"), ("dfs", "disabled"), ("bfs", "full"), ("bfs", "disabled")],
                           n_quick=200, extra_gen=lambda rng, tier: mc_checks.gen_crash_merge(rng, tier) + mc_checks.gen_payload_twins(rng, tier)), mc_checks.rand_cache_probe, py_suite.order_probe]},
     "C12": {"ready": True, "replay": mc_checks.replay,
             "suites": [mc("mc_fates", dict(p_fault=0.7, p_link=0.5, p_send=0.6, p_timer=0.1, nodes=(2, 3), procs=(2, 3), depth=(2, 4)),
                           refenum=True, nontrivial=lambda st: st["faults"] and st["multi_states"], extra_gen=mc_checks.gen_mc_link_matrix)]},
-    "C13": {"ready": True, "partial": PARTIAL_D1, "replay": mc_checks.replay,
+    "C13": {"ready": True, "partial": PARTIAL_D1, "replay": auto_replay,
             "suites": [lambda v, tier, seed: store_suite.run(v, tier, seed, only_timers=True),
                        mc("mc_timer_order", dict(p_timer=0.7, p_send=0.15, p_once=0.4, same_timer_name=0.1, p_mode=0.4, depth=(3, 5),
                                                  p_fault=0.05, staged=0.3, locals=(2, 4)), refenum=True, nontrivial=lambda st: st["blocked"],
@@ -229,7 +256,7 @@ PROPS = {
     "C14": {"ready": True, "replay": mc_checks.replay,
             "suites": [mc("mc_crash", dict(p_crash=1.0, nodes=(2, 3), procs=(2, 4), p_link=0.4, staged=0.5), refenum=True, extra_gen=mc_checks.gen_crash_then_heal,
                           nontrivial=lambda st: st["crash"] and st["multi_states"])]},
-    "C16": {"ready": True, "replay": mc_checks.replay,
+    "C16": {"ready": True, "replay": auto_replay,
             "partial": "the union over start states is a theorem for the Disabled cache (runFromStates_disabled_concat) and for an exact shared cache with state-based predicates (runFromStates_ok_union); with path-dependent predicates and a shared cache the outcome depends on the hash order of equal-depth start states and is only observed",
             "suites": [mc("mc_staged", dict(staged=1.0, staged3=0.5, p_crash=0.3, depth=(2, 4)), extra_gen=mc_checks.gen_staged_gate, nontrivial=lambda st: st["staged"] and st["multi_states"])]},
     "C20": {
